@@ -99,6 +99,12 @@ func runShell(dir, script string) int {
 // runPty runs a command under tools/ptyrun.py (a pseudo-terminal as controlling tty),
 // typing the responses when the prompts appear; returns the exit status (-9 on harness trouble).
 func runPty(dir string, responses [][2]string, argv ...string) int {
+	e, _ := runPtyTyped(dir, responses, argv...)
+	return e
+}
+
+// runPtyTyped also reports how many of the responses were typed (= prompts that appeared).
+func runPtyTyped(dir string, responses [][2]string, argv ...string) (int, int) {
 	type pair = [2]string
 	js, _ := json.Marshal(responses)
 	args := append([]string{filepath.Join(verifDir(), "tools", "ptyrun.py"), dir, string(js), "--"}, argv...)
@@ -109,13 +115,14 @@ func runPty(dir string, responses [][2]string, argv ...string) int {
 		if os.Getenv("VERIF_DEBUG") != "" {
 			println("ptyrun failed:", err.Error(), string(out))
 		}
-		return -9
+		return -9, 0
 	}
 	var r struct {
-		Exit int `json:"exit"`
+		Exit  int `json:"exit"`
+		Typed int `json:"typed"`
 	}
 	if json.Unmarshal(bytes.TrimSpace(out), &r) != nil {
-		return -9
+		return -9, 0
 	}
-	return r.Exit
+	return r.Exit, r.Typed
 }
